@@ -1007,3 +1007,586 @@ Example C04_example_compose_values :
           (tab 2 (fun j => mnth (m_rb ex_S None 0 1 KCat ex_ms ex_mc 0 ex_rsubs 0) 3 j))
           [Fin 10; Fin 20]) = Fin (50 # 3).
 Proof. vm_compute. repeat split; reflexivity. Qed.
+
+(* ==== GenAgree (subtotal strategies): what matrix/subtotals.py and stripe/insertion.py SAY NOW ==== *)
+(* Appended by work/translator3 (statements generated from the lemmas of Proofs/GenAgreeSubtotals.v, GenAgreeSubtotalsTerms.v, GenAgreeSubtotalsWave.v by
+   work/translator3/gen_lemmas.py).  Gen/SubtotalsSrc.v / Gen/StripeInsertionSrc.v are rewritten from the
+   source on every check; [seval] (Base/SubtotalExp.v) is the meaning of a translated member;
+   [None] = the translator could not read the member (tied by the correspondence only). *)
+From Coq Require String.
+From CC Require Base.SubtotalExp Base.MeasureExp Model.Subtotals Model.Proportions Model.Variance
+     Gen.SubtotalsSrc Gen.StripeInsertionSrc Proofs.GenAgreeMeasTac Proofs.GenAgreeSubTac Proofs.GenAgreeSubtotals Proofs.GenAgreeSubtotalsTerms Proofs.GenAgreeSubtotalsWave.
+Section GenAgreeSubtotals_C04.   (* scopes and imports below end with the section *)
+Import Coq.Strings.String CC.Base.SubtotalExp CC.Base.MeasureExp CC.Model.Subtotals CC.Model.Proportions
+       CC.Model.Variance CC.Gen.SubtotalsSrc CC.Gen.StripeInsertionSrc CC.Proofs.GenAgreeMeasTac
+       CC.Proofs.GenAgreeSubTac CC.Proofs.GenAgreeSubtotals CC.Proofs.GenAgreeSubtotalsTerms CC.Proofs.GenAgreeSubtotalsWave.
+Import Coq.Lists.List.ListNotations CC.Base.XQ CC.Base.ListX.
+Local Close Scope Q_scope.
+Local Open Scope string_scope.
+Local Open Scope nat_scope.
+
+(* matrix SumSubtotals: one subtotal column / row / intersection = [subcol_cell] / [subrow_cell] / [inter_cell];
+   the assembled columns, rows, intersections and the four `_blocks` = the blocks of [sum_blocks];
+   the classmethods blocks / intersections / subtotal_columns / subtotal_rows (what the measures call) =
+   [strat_std .. 0 dcn drn ..], the meaning the second translator's environment gives to the call;
+   OverlapSubtotals._subtotal_rows: one copy of base row 0 per row subtotal (a 1-D empty array when there is none) *)
+Theorem C04_gen_SumSubtotals :
+  (match src_SumSubtotals__subtotal_column with
+  | Some e => forall base nr nc dcn drn rsubs csubs s,
+      sub_in nc s ->
+      sagrees_vec (seval (senv_sum base nr nc dcn drn rsubs csubs s s) e) nr (subcol_cell base dcn s)
+  | None => True
+  end) /\
+  (match src_SumSubtotals__subtotal_row with
+  | Some e => forall base nr nc dcn drn rsubs csubs s,
+      sub_in nr s ->
+      sagrees_vec (seval (senv_sum base nr nc dcn drn rsubs csubs s s) e) nc (subrow_cell base drn s)
+  | None => True
+  end) /\
+  (match src_SumSubtotals__intersection with
+  | Some e => forall base nr nc dcn drn rsubs csubs rs cs,
+      sub_in nr rs ->
+      sub_in nc cs ->
+      sagrees_scal (seval (senv_sum base nr nc dcn drn rsubs csubs rs cs) e) (inter_cell base dcn drn rs cs)
+  | None => True
+  end) /\
+  (match src_SumSubtotals__subtotal_columns with
+  | Some e => forall base nr nc dcn drn rsubs csubs,
+      subs_in nc csubs ->
+      sagrees_mat (seval (senv_sum base nr nc dcn drn rsubs csubs nosub nosub) e) nr (List.length csubs) (mnth (b_cols (sum_blocks base nr nc rsubs csubs dcn drn)))
+  | None => True
+  end) /\
+  (match src_SumSubtotals__subtotal_rows with
+  | Some e => forall base nr nc dcn drn rsubs csubs,
+      subs_in nr rsubs ->
+      sagrees_mat (seval (senv_sum base nr nc dcn drn rsubs csubs nosub nosub) e) (List.length rsubs) nc (mnth (b_rows (sum_blocks base nr nc rsubs csubs dcn drn)))
+  | None => True
+  end) /\
+  (match src_SumSubtotals__intersections with
+  | Some e => forall base nr nc dcn drn rsubs csubs,
+      subs_in nr rsubs ->
+      subs_in nc csubs ->
+      sagrees_mat (seval (senv_sum base nr nc dcn drn rsubs csubs nosub nosub) e) (List.length rsubs) (List.length csubs) (mnth (b_inter (sum_blocks base nr nc rsubs csubs dcn drn)))
+  | None => True
+  end) /\
+  (match src_SumSubtotals__blocks_00 with
+  | Some e => forall base nr nc dcn drn rsubs csubs,
+      sagrees_mat (seval (senv_sum base nr nc dcn drn rsubs csubs nosub nosub) e) nr nc (mnth (b_base (sum_blocks base nr nc rsubs csubs dcn drn)))
+  | None => True
+  end) /\
+  (match src_SumSubtotals__blocks_01 with
+  | Some e => forall base nr nc dcn drn rsubs csubs,
+      subs_in nc csubs ->
+      sagrees_mat (seval (senv_sum base nr nc dcn drn rsubs csubs nosub nosub) e) nr (List.length csubs) (mnth (b_cols (sum_blocks base nr nc rsubs csubs dcn drn)))
+  | None => True
+  end) /\
+  (match src_SumSubtotals__blocks_10 with
+  | Some e => forall base nr nc dcn drn rsubs csubs,
+      subs_in nr rsubs ->
+      sagrees_mat (seval (senv_sum base nr nc dcn drn rsubs csubs nosub nosub) e) (List.length rsubs) nc (mnth (b_rows (sum_blocks base nr nc rsubs csubs dcn drn)))
+  | None => True
+  end) /\
+  (match src_SumSubtotals__blocks_11 with
+  | Some e => forall base nr nc dcn drn rsubs csubs,
+      subs_in nr rsubs ->
+      subs_in nc csubs ->
+      sagrees_mat (seval (senv_sum base nr nc dcn drn rsubs csubs nosub nosub) e) (List.length rsubs) (List.length csubs) (mnth (b_inter (sum_blocks base nr nc rsubs csubs dcn drn)))
+  | None => True
+  end) /\
+  (match src_SumSubtotals_blocks_00 with
+  | Some e => forall cubem nr nc dcn drn rsubs csubs c a,
+      sagrees_mat (seval (senv_sum (cubem c a) nr nc dcn drn rsubs csubs nosub nosub) e) nr nc (strat_std cubem nr nc rsubs csubs 0 dcn drn c a 0 0)
+  | None => True
+  end) /\
+  (match src_SumSubtotals_blocks_01 with
+  | Some e => forall cubem nr nc dcn drn rsubs csubs c a,
+      subs_in nc csubs ->
+      sagrees_mat (seval (senv_sum (cubem c a) nr nc dcn drn rsubs csubs nosub nosub) e) nr (List.length csubs) (strat_std cubem nr nc rsubs csubs 0 dcn drn c a 0 1)
+  | None => True
+  end) /\
+  (match src_SumSubtotals_blocks_10 with
+  | Some e => forall cubem nr nc dcn drn rsubs csubs c a,
+      subs_in nr rsubs ->
+      sagrees_mat (seval (senv_sum (cubem c a) nr nc dcn drn rsubs csubs nosub nosub) e) (List.length rsubs) nc (strat_std cubem nr nc rsubs csubs 0 dcn drn c a 1 0)
+  | None => True
+  end) /\
+  (match src_SumSubtotals_blocks_11 with
+  | Some e => forall cubem nr nc dcn drn rsubs csubs c a,
+      subs_in nr rsubs ->
+      subs_in nc csubs ->
+      sagrees_mat (seval (senv_sum (cubem c a) nr nc dcn drn rsubs csubs nosub nosub) e) (List.length rsubs) (List.length csubs) (strat_std cubem nr nc rsubs csubs 0 dcn drn c a 1 1)
+  | None => True
+  end) /\
+  (match src_SumSubtotals_intersections with
+  | Some e => forall base nr nc dcn drn rsubs csubs,
+      subs_in nr rsubs ->
+      subs_in nc csubs ->
+      sagrees_mat (seval (senv_sum base nr nc dcn drn rsubs csubs nosub nosub) e) (List.length rsubs) (List.length csubs) (mnth (b_inter (sum_blocks base nr nc rsubs csubs dcn drn)))
+  | None => True
+  end) /\
+  (match src_SumSubtotals_subtotal_columns with
+  | Some e => forall base nr nc dcn drn rsubs csubs,
+      subs_in nc csubs ->
+      sagrees_mat (seval (senv_sum base nr nc dcn drn rsubs csubs nosub nosub) e) nr (List.length csubs) (mnth (b_cols (sum_blocks base nr nc rsubs csubs dcn drn)))
+  | None => True
+  end) /\
+  (match src_SumSubtotals_subtotal_rows with
+  | Some e => forall base nr nc dcn drn rsubs csubs,
+      subs_in nr rsubs ->
+      sagrees_mat (seval (senv_sum base nr nc dcn drn rsubs csubs nosub nosub) e) (List.length rsubs) nc (mnth (b_rows (sum_blocks base nr nc rsubs csubs dcn drn)))
+  | None => True
+  end) /\
+  (match src_OverlapSubtotals__subtotal_rows with
+  | Some e => forall base nr nc dcn drn rsubs csubs,
+      0 < nr ->
+      rsubs <> [] ->
+      sagrees_mat (seval (senv_sum base nr nc dcn drn rsubs csubs nosub nosub) e) (List.length rsubs) nc (fun _ j => mnth base 0 j)
+  | None => True
+  end).
+Proof. exact (conj gen_SumSubtotals__subtotal_column (conj gen_SumSubtotals__subtotal_row (conj gen_SumSubtotals__intersection (conj gen_SumSubtotals__subtotal_columns (conj gen_SumSubtotals__subtotal_rows (conj gen_SumSubtotals__intersections (conj gen_SumSubtotals__blocks_00 (conj gen_SumSubtotals__blocks_01 (conj gen_SumSubtotals__blocks_10 (conj gen_SumSubtotals__blocks_11 (conj gen_SumSubtotals_blocks_00 (conj gen_SumSubtotals_blocks_01 (conj gen_SumSubtotals_blocks_10 (conj gen_SumSubtotals_blocks_11 (conj gen_SumSubtotals_intersections (conj gen_SumSubtotals_subtotal_columns (conj gen_SumSubtotals_subtotal_rows (gen_OverlapSubtotals__subtotal_rows)))))))))))))))))). Qed.
+Print Assumptions C04_gen_SumSubtotals.
+
+(* matrix NanSubtotals = [nan_blocks] *)
+Theorem C04_gen_NanSubtotals :
+  (match src_NanSubtotals__subtotal_column with
+  | Some e => forall base nr nc rsubs csubs s,
+      sub_in nc s ->
+      sagrees_vec (seval (senv_sum base nr nc false false rsubs csubs s s) e) nr (fun _ : nat => NaN)
+  | None => True
+  end) /\
+  (match src_NanSubtotals__subtotal_row with
+  | Some e => forall base nr nc rsubs csubs s,
+      sub_in nr s ->
+      sagrees_vec (seval (senv_sum base nr nc false false rsubs csubs s s) e) nc (fun _ : nat => NaN)
+  | None => True
+  end) /\
+  (match src_NanSubtotals__intersection with
+  | Some e => forall base nr nc rsubs csubs rs cs,
+      sub_in nr rs ->
+      sub_in nc cs ->
+      sagrees_scal (seval (senv_sum base nr nc false false rsubs csubs rs cs) e) (NaN)
+  | None => True
+  end) /\
+  (match src_NanSubtotals__subtotal_columns with
+  | Some e => forall base nr nc rsubs csubs,
+      subs_in nc csubs ->
+      sagrees_mat (seval (senv_sum base nr nc false false rsubs csubs nosub nosub) e) nr (List.length csubs) (mnth (b_cols (nan_blocks base nr nc rsubs csubs)))
+  | None => True
+  end) /\
+  (match src_NanSubtotals__subtotal_rows with
+  | Some e => forall base nr nc rsubs csubs,
+      subs_in nr rsubs ->
+      sagrees_mat (seval (senv_sum base nr nc false false rsubs csubs nosub nosub) e) (List.length rsubs) nc (mnth (b_rows (nan_blocks base nr nc rsubs csubs)))
+  | None => True
+  end) /\
+  (match src_NanSubtotals__intersections with
+  | Some e => forall base nr nc rsubs csubs,
+      subs_in nr rsubs ->
+      subs_in nc csubs ->
+      sagrees_mat (seval (senv_sum base nr nc false false rsubs csubs nosub nosub) e) (List.length rsubs) (List.length csubs) (mnth (b_inter (nan_blocks base nr nc rsubs csubs)))
+  | None => True
+  end) /\
+  (match src_NanSubtotals__blocks_00 with
+  | Some e => forall base nr nc rsubs csubs,
+      sagrees_mat (seval (senv_sum base nr nc false false rsubs csubs nosub nosub) e) nr nc (mnth (b_base (nan_blocks base nr nc rsubs csubs)))
+  | None => True
+  end) /\
+  (match src_NanSubtotals__blocks_01 with
+  | Some e => forall base nr nc rsubs csubs,
+      subs_in nc csubs ->
+      sagrees_mat (seval (senv_sum base nr nc false false rsubs csubs nosub nosub) e) nr (List.length csubs) (mnth (b_cols (nan_blocks base nr nc rsubs csubs)))
+  | None => True
+  end) /\
+  (match src_NanSubtotals__blocks_10 with
+  | Some e => forall base nr nc rsubs csubs,
+      subs_in nr rsubs ->
+      sagrees_mat (seval (senv_sum base nr nc false false rsubs csubs nosub nosub) e) (List.length rsubs) nc (mnth (b_rows (nan_blocks base nr nc rsubs csubs)))
+  | None => True
+  end) /\
+  (match src_NanSubtotals__blocks_11 with
+  | Some e => forall base nr nc rsubs csubs,
+      subs_in nr rsubs ->
+      subs_in nc csubs ->
+      sagrees_mat (seval (senv_sum base nr nc false false rsubs csubs nosub nosub) e) (List.length rsubs) (List.length csubs) (mnth (b_inter (nan_blocks base nr nc rsubs csubs)))
+  | None => True
+  end) /\
+  (match src_NanSubtotals_blocks_00 with
+  | Some e => forall base nr nc rsubs csubs,
+      sagrees_mat (seval (senv_sum base nr nc false false rsubs csubs nosub nosub) e) nr nc (mnth (b_base (nan_blocks base nr nc rsubs csubs)))
+  | None => True
+  end) /\
+  (match src_NanSubtotals_blocks_01 with
+  | Some e => forall base nr nc rsubs csubs,
+      subs_in nc csubs ->
+      sagrees_mat (seval (senv_sum base nr nc false false rsubs csubs nosub nosub) e) nr (List.length csubs) (mnth (b_cols (nan_blocks base nr nc rsubs csubs)))
+  | None => True
+  end) /\
+  (match src_NanSubtotals_blocks_10 with
+  | Some e => forall base nr nc rsubs csubs,
+      subs_in nr rsubs ->
+      sagrees_mat (seval (senv_sum base nr nc false false rsubs csubs nosub nosub) e) (List.length rsubs) nc (mnth (b_rows (nan_blocks base nr nc rsubs csubs)))
+  | None => True
+  end) /\
+  (match src_NanSubtotals_blocks_11 with
+  | Some e => forall base nr nc rsubs csubs,
+      subs_in nr rsubs ->
+      subs_in nc csubs ->
+      sagrees_mat (seval (senv_sum base nr nc false false rsubs csubs nosub nosub) e) (List.length rsubs) (List.length csubs) (mnth (b_inter (nan_blocks base nr nc rsubs csubs)))
+  | None => True
+  end).
+Proof. exact (conj gen_NanSubtotals__subtotal_column (conj gen_NanSubtotals__subtotal_row (conj gen_NanSubtotals__intersection (conj gen_NanSubtotals__subtotal_columns (conj gen_NanSubtotals__subtotal_rows (conj gen_NanSubtotals__intersections (conj gen_NanSubtotals__blocks_00 (conj gen_NanSubtotals__blocks_01 (conj gen_NanSubtotals__blocks_10 (conj gen_NanSubtotals__blocks_11 (conj gen_NanSubtotals_blocks_00 (conj gen_NanSubtotals_blocks_01 (conj gen_NanSubtotals_blocks_10 (gen_NanSubtotals_blocks_11)))))))))))))). Qed.
+Print Assumptions C04_gen_NanSubtotals.
+
+(* matrix PositiveTermSubtotals = [pos_blocks] (Model/Variance.v) = [strat_std .. 1 ..] *)
+Theorem C04_gen_PositiveTermSubtotals :
+  (match src_PositiveTermSubtotals__subtotal_column with
+  | Some e => forall base nr nc rsubs csubs s,
+      sub_in nc s ->
+      sagrees_vec (seval (senv_sum base nr nc false false rsubs csubs s s) e) nr (fun i => sum_cols base i (s_add s))
+  | None => True
+  end) /\
+  (match src_PositiveTermSubtotals__subtotal_row with
+  | Some e => forall base nr nc rsubs csubs s,
+      sub_in nr s ->
+      sagrees_vec (seval (senv_sum base nr nc false false rsubs csubs s s) e) nc (pos_row base s)
+  | None => True
+  end) /\
+  (match src_PositiveTermSubtotals__intersection with
+  | Some e => forall base nr nc rsubs csubs rs cs,
+      sub_in nr rs ->
+      sub_in nc cs ->
+      sagrees_scal (seval (senv_sum base nr nc false false rsubs csubs rs cs) e) (if has_subs cs && has_subs rs then NaN else xsum (map (pos_row base rs) (s_add cs)))
+  | None => True
+  end) /\
+  (match src_PositiveTermSubtotals__subtotal_columns with
+  | Some e => forall base nr nc rsubs csubs,
+      subs_in nc csubs ->
+      sagrees_mat (seval (senv_sum base nr nc false false rsubs csubs nosub nosub) e) nr (List.length csubs) (mnth (b_cols (pos_blocks base nr nc rsubs csubs)))
+  | None => True
+  end) /\
+  (match src_PositiveTermSubtotals__subtotal_rows with
+  | Some e => forall base nr nc rsubs csubs,
+      subs_in nr rsubs ->
+      sagrees_mat (seval (senv_sum base nr nc false false rsubs csubs nosub nosub) e) (List.length rsubs) nc (mnth (b_rows (pos_blocks base nr nc rsubs csubs)))
+  | None => True
+  end) /\
+  (match src_PositiveTermSubtotals__intersections with
+  | Some e => forall base nr nc rsubs csubs,
+      subs_in nr rsubs ->
+      subs_in nc csubs ->
+      sagrees_mat (seval (senv_sum base nr nc false false rsubs csubs nosub nosub) e) (List.length rsubs) (List.length csubs) (mnth (b_inter (pos_blocks base nr nc rsubs csubs)))
+  | None => True
+  end) /\
+  (match src_PositiveTermSubtotals__blocks_00 with
+  | Some e => forall base nr nc rsubs csubs,
+      sagrees_mat (seval (senv_sum base nr nc false false rsubs csubs nosub nosub) e) nr nc (mnth (b_base (pos_blocks base nr nc rsubs csubs)))
+  | None => True
+  end) /\
+  (match src_PositiveTermSubtotals__blocks_01 with
+  | Some e => forall base nr nc rsubs csubs,
+      subs_in nc csubs ->
+      sagrees_mat (seval (senv_sum base nr nc false false rsubs csubs nosub nosub) e) nr (List.length csubs) (mnth (b_cols (pos_blocks base nr nc rsubs csubs)))
+  | None => True
+  end) /\
+  (match src_PositiveTermSubtotals__blocks_10 with
+  | Some e => forall base nr nc rsubs csubs,
+      subs_in nr rsubs ->
+      sagrees_mat (seval (senv_sum base nr nc false false rsubs csubs nosub nosub) e) (List.length rsubs) nc (mnth (b_rows (pos_blocks base nr nc rsubs csubs)))
+  | None => True
+  end) /\
+  (match src_PositiveTermSubtotals__blocks_11 with
+  | Some e => forall base nr nc rsubs csubs,
+      subs_in nr rsubs ->
+      subs_in nc csubs ->
+      sagrees_mat (seval (senv_sum base nr nc false false rsubs csubs nosub nosub) e) (List.length rsubs) (List.length csubs) (mnth (b_inter (pos_blocks base nr nc rsubs csubs)))
+  | None => True
+  end) /\
+  (match src_PositiveTermSubtotals_blocks_00 with
+  | Some e => forall cubem nr nc rsubs csubs c a,
+      sagrees_mat (seval (senv_sum (cubem c a) nr nc false false rsubs csubs nosub nosub) e) nr nc (strat_std cubem nr nc rsubs csubs 1 false false c a 0 0)
+  | None => True
+  end) /\
+  (match src_PositiveTermSubtotals_blocks_01 with
+  | Some e => forall cubem nr nc rsubs csubs c a,
+      subs_in nc csubs ->
+      sagrees_mat (seval (senv_sum (cubem c a) nr nc false false rsubs csubs nosub nosub) e) nr (List.length csubs) (strat_std cubem nr nc rsubs csubs 1 false false c a 0 1)
+  | None => True
+  end) /\
+  (match src_PositiveTermSubtotals_blocks_10 with
+  | Some e => forall cubem nr nc rsubs csubs c a,
+      subs_in nr rsubs ->
+      sagrees_mat (seval (senv_sum (cubem c a) nr nc false false rsubs csubs nosub nosub) e) (List.length rsubs) nc (strat_std cubem nr nc rsubs csubs 1 false false c a 1 0)
+  | None => True
+  end) /\
+  (match src_PositiveTermSubtotals_blocks_11 with
+  | Some e => forall cubem nr nc rsubs csubs c a,
+      subs_in nr rsubs ->
+      subs_in nc csubs ->
+      sagrees_mat (seval (senv_sum (cubem c a) nr nc false false rsubs csubs nosub nosub) e) (List.length rsubs) (List.length csubs) (strat_std cubem nr nc rsubs csubs 1 false false c a 1 1)
+  | None => True
+  end).
+Proof. exact (conj gen_PositiveTermSubtotals__subtotal_column (conj gen_PositiveTermSubtotals__subtotal_row (conj gen_PositiveTermSubtotals__intersection (conj gen_PositiveTermSubtotals__subtotal_columns (conj gen_PositiveTermSubtotals__subtotal_rows (conj gen_PositiveTermSubtotals__intersections (conj gen_PositiveTermSubtotals__blocks_00 (conj gen_PositiveTermSubtotals__blocks_01 (conj gen_PositiveTermSubtotals__blocks_10 (conj gen_PositiveTermSubtotals__blocks_11 (conj gen_PositiveTermSubtotals_blocks_00 (conj gen_PositiveTermSubtotals_blocks_01 (conj gen_PositiveTermSubtotals_blocks_10 (gen_PositiveTermSubtotals_blocks_11)))))))))))))). Qed.
+Print Assumptions C04_gen_PositiveTermSubtotals.
+
+(* matrix NegativeTermSubtotals = [neg_blocks] (base block all 0) = [strat_std .. 2 ..] *)
+Theorem C04_gen_NegativeTermSubtotals :
+  (match src_NegativeTermSubtotals__subtotal_column with
+  | Some e => forall base nr nc rsubs csubs s,
+      sub_in nc s ->
+      sagrees_vec (seval (senv_sum base nr nc false false rsubs csubs s s) e) nr (fun i => sum_cols base i (s_sub s))
+  | None => True
+  end) /\
+  (match src_NegativeTermSubtotals__subtotal_row with
+  | Some e => forall base nr nc rsubs csubs s,
+      sub_in nr s ->
+      sagrees_vec (seval (senv_sum base nr nc false false rsubs csubs s s) e) nc (fun j => sum_rows base (s_sub s) j)
+  | None => True
+  end) /\
+  (match src_NegativeTermSubtotals__intersection with
+  | Some e => forall base nr nc rsubs csubs rs cs,
+      sub_in nr rs ->
+      sub_in nc cs ->
+      sagrees_scal (seval (senv_sum base nr nc false false rsubs csubs rs cs) e) (if has_subs cs && has_subs rs then NaN else if has_subs cs then xsum (map (fun c => sum_rows base (s_add rs) c) (s_sub cs)) else if has_subs rs then xsum (map (fun r => sum_cols base r (s_add cs)) (s_sub rs)) else Fin 0)
+  | None => True
+  end) /\
+  (match src_NegativeTermSubtotals__subtotal_columns with
+  | Some e => forall base nr nc rsubs csubs,
+      subs_in nc csubs ->
+      sagrees_mat (seval (senv_sum base nr nc false false rsubs csubs nosub nosub) e) nr (List.length csubs) (mnth (b_cols (neg_blocks base nr nc rsubs csubs)))
+  | None => True
+  end) /\
+  (match src_NegativeTermSubtotals__subtotal_rows with
+  | Some e => forall base nr nc rsubs csubs,
+      subs_in nr rsubs ->
+      sagrees_mat (seval (senv_sum base nr nc false false rsubs csubs nosub nosub) e) (List.length rsubs) nc (mnth (b_rows (neg_blocks base nr nc rsubs csubs)))
+  | None => True
+  end) /\
+  (match src_NegativeTermSubtotals__intersections with
+  | Some e => forall base nr nc rsubs csubs,
+      subs_in nr rsubs ->
+      subs_in nc csubs ->
+      sagrees_mat (seval (senv_sum base nr nc false false rsubs csubs nosub nosub) e) (List.length rsubs) (List.length csubs) (mnth (b_inter (neg_blocks base nr nc rsubs csubs)))
+  | None => True
+  end) /\
+  (match src_NegativeTermSubtotals__blocks_00 with
+  | Some e => forall base nr nc rsubs csubs,
+      sagrees_mat (seval (senv_sum base nr nc false false rsubs csubs nosub nosub) e) nr nc (mnth (b_base (neg_blocks base nr nc rsubs csubs)))
+  | None => True
+  end) /\
+  (match src_NegativeTermSubtotals__blocks_01 with
+  | Some e => forall base nr nc rsubs csubs,
+      subs_in nc csubs ->
+      sagrees_mat (seval (senv_sum base nr nc false false rsubs csubs nosub nosub) e) nr (List.length csubs) (mnth (b_cols (neg_blocks base nr nc rsubs csubs)))
+  | None => True
+  end) /\
+  (match src_NegativeTermSubtotals__blocks_10 with
+  | Some e => forall base nr nc rsubs csubs,
+      subs_in nr rsubs ->
+      sagrees_mat (seval (senv_sum base nr nc false false rsubs csubs nosub nosub) e) (List.length rsubs) nc (mnth (b_rows (neg_blocks base nr nc rsubs csubs)))
+  | None => True
+  end) /\
+  (match src_NegativeTermSubtotals__blocks_11 with
+  | Some e => forall base nr nc rsubs csubs,
+      subs_in nr rsubs ->
+      subs_in nc csubs ->
+      sagrees_mat (seval (senv_sum base nr nc false false rsubs csubs nosub nosub) e) (List.length rsubs) (List.length csubs) (mnth (b_inter (neg_blocks base nr nc rsubs csubs)))
+  | None => True
+  end) /\
+  (match src_NegativeTermSubtotals_blocks_00 with
+  | Some e => forall cubem nr nc rsubs csubs c a,
+      sagrees_mat (seval (senv_sum (cubem c a) nr nc false false rsubs csubs nosub nosub) e) nr nc (strat_std cubem nr nc rsubs csubs 2 false false c a 0 0)
+  | None => True
+  end) /\
+  (match src_NegativeTermSubtotals_blocks_01 with
+  | Some e => forall cubem nr nc rsubs csubs c a,
+      subs_in nc csubs ->
+      sagrees_mat (seval (senv_sum (cubem c a) nr nc false false rsubs csubs nosub nosub) e) nr (List.length csubs) (strat_std cubem nr nc rsubs csubs 2 false false c a 0 1)
+  | None => True
+  end) /\
+  (match src_NegativeTermSubtotals_blocks_10 with
+  | Some e => forall cubem nr nc rsubs csubs c a,
+      subs_in nr rsubs ->
+      sagrees_mat (seval (senv_sum (cubem c a) nr nc false false rsubs csubs nosub nosub) e) (List.length rsubs) nc (strat_std cubem nr nc rsubs csubs 2 false false c a 1 0)
+  | None => True
+  end) /\
+  (match src_NegativeTermSubtotals_blocks_11 with
+  | Some e => forall cubem nr nc rsubs csubs c a,
+      subs_in nr rsubs ->
+      subs_in nc csubs ->
+      sagrees_mat (seval (senv_sum (cubem c a) nr nc false false rsubs csubs nosub nosub) e) (List.length rsubs) (List.length csubs) (strat_std cubem nr nc rsubs csubs 2 false false c a 1 1)
+  | None => True
+  end).
+Proof. exact (conj gen_NegativeTermSubtotals__subtotal_column (conj gen_NegativeTermSubtotals__subtotal_row (conj gen_NegativeTermSubtotals__intersection (conj gen_NegativeTermSubtotals__subtotal_columns (conj gen_NegativeTermSubtotals__subtotal_rows (conj gen_NegativeTermSubtotals__intersections (conj gen_NegativeTermSubtotals__blocks_00 (conj gen_NegativeTermSubtotals__blocks_01 (conj gen_NegativeTermSubtotals__blocks_10 (conj gen_NegativeTermSubtotals__blocks_11 (conj gen_NegativeTermSubtotals_blocks_00 (conj gen_NegativeTermSubtotals_blocks_01 (conj gen_NegativeTermSubtotals_blocks_10 (gen_NegativeTermSubtotals_blocks_11)))))))))))))). Qed.
+Print Assumptions C04_gen_NegativeTermSubtotals.
+
+(* matrix WaveDiffSubtotal: the categorical-date rule for one subtotal column / row ([wave_col_cell] /
+   [wave_row_cell]: one wave minus one wave = difference of the two percentages, several terms = NaN,
+   otherwise the default), the zip with the default insertions, and the classmethods = [wave_std] *)
+Theorem C04_gen_WaveDiffSubtotal :
+  (match src_WaveDiffSubtotal__multiple_subtrahends_or_addends with
+  | Some e => forall bases counts nr nc dflts rsubs csubs rd cd s dflt,
+      keval (senv_wave bases counts nr nc dflts rsubs csubs rd cd s dflt) e = multiple_terms s
+  | None => True
+  end) /\
+  (match src_WaveDiffSubtotal__subtotal_column with
+  | Some e => forall bases counts nr nc dflts rsubs csubs rd cd s d,
+      sub_in nc s ->
+      sagrees_vec (seval (senv_wave bases counts nr nc dflts rsubs csubs rd cd s (SVV (ARange nr) d)) e) nr (fun i => wave_col_cell bases counts cd s (d i) i)
+  | None => True
+  end) /\
+  (match src_WaveDiffSubtotal__subtotal_row with
+  | Some e => forall bases counts nr nc dflts rsubs csubs rd cd s d,
+      sub_in nr s ->
+      sagrees_vec (seval (senv_wave bases counts nr nc dflts rsubs csubs rd cd s (SVV (ARange nc) d)) e) nc (fun j => wave_row_cell bases counts rd s (d j) j)
+  | None => True
+  end) /\
+  (match src_WaveDiffSubtotal__subtotal_columns with
+  | Some e => forall bases counts nr nc rsubs csubs rd cd D,
+      subs_in nc csubs ->
+      sagrees_mat (seval (senv_wave bases counts nr nc (SVM (ARange nr) (ARange (List.length csubs)) D) rsubs csubs rd cd nosub SVErr) e) nr (List.length csubs)
+        (fun i l => wave_col_cell bases counts cd (nth l csubs nosub) (D i l) i)
+  | None => True
+  end) /\
+  (match src_WaveDiffSubtotal__subtotal_rows with
+  | Some e => forall bases counts nr nc rsubs csubs rd cd D,
+      subs_in nr rsubs ->
+      sagrees_mat (seval (senv_wave bases counts nr nc (SVM (ARange (List.length rsubs)) (ARange nc) D) rsubs csubs rd cd nosub SVErr) e) (List.length rsubs) nc
+        (fun k j => wave_row_cell bases counts rd (nth k rsubs nosub) (D k j) j)
+  | None => True
+  end) /\
+  (match src_WaveDiffSubtotal_subtotal_columns with
+  | Some e => forall cubem nr nc rsubs csubs rd cd bc ba cc ca D,
+      subs_in nc csubs ->
+      sagrees_mat (seval (senv_wave (cubem bc ba) (cubem cc ca) nr nc (SVM (ARange nr) (ARange (List.length csubs)) D) rsubs csubs rd cd nosub SVErr) e) nr (List.length csubs)
+        (wave_std cubem rsubs csubs rd cd AxCols bc ba cc ca D)
+  | None => True
+  end) /\
+  (match src_WaveDiffSubtotal_subtotal_rows with
+  | Some e => forall cubem nr nc rsubs csubs rd cd bc ba cc ca D,
+      subs_in nr rsubs ->
+      sagrees_mat (seval (senv_wave (cubem bc ba) (cubem cc ca) nr nc (SVM (ARange (List.length rsubs)) (ARange nc) D) rsubs csubs rd cd nosub SVErr) e) (List.length rsubs) nc
+        (wave_std cubem rsubs csubs rd cd AxRows bc ba cc ca D)
+  | None => True
+  end).
+Proof. exact (conj gen_WaveDiffSubtotal__multiple_subtrahends_or_addends (conj gen_WaveDiffSubtotal__subtotal_column (conj gen_WaveDiffSubtotal__subtotal_row (conj gen_WaveDiffSubtotal__subtotal_columns (conj gen_WaveDiffSubtotal__subtotal_rows (conj gen_WaveDiffSubtotal_subtotal_columns (gen_WaveDiffSubtotal_subtotal_rows))))))). Qed.
+Print Assumptions C04_gen_WaveDiffSubtotal.
+
+(* stripe SumSubtotals = [stripe_sum_subtotal] = [vstrat_std .. 0]; stripe NanSubtotals *)
+Theorem C04_gen_stripe_SumSubtotals :
+  (match ssrc_SumSubtotals__subtotal_value with
+  | Some e => forall base n subs s,
+      sub_in n s ->
+      sagrees_scal (seval (senv_ssum base n subs s) e) (stripe_sum_subtotal base s)
+  | None => True
+  end) /\
+  (match ssrc_SumSubtotals__subtotal_values with
+  | Some e => forall base n subs,
+      subs_in n subs ->
+      sagrees_vec (seval (senv_ssum base n subs nosub) e) (List.length subs) (fun k => stripe_sum_subtotal base (nth k subs nosub))
+  | None => True
+  end) /\
+  (match ssrc_SumSubtotals_subtotal_values with
+  | Some e => forall base n subs,
+      subs_in n subs ->
+      sagrees_vec (seval (senv_ssum base n subs nosub) e) (List.length subs) (vstrat_std subs 0 (vnth base))
+  | None => True
+  end) /\
+  (match ssrc_NanSubtotals__subtotal_values with
+  | Some e => forall base n subs,
+      sagrees_vec (seval (senv_ssum base n subs nosub) e) (List.length subs) (fun _ => NaN)
+  | None => True
+  end) /\
+  (match ssrc_NanSubtotals_subtotal_values with
+  | Some e => forall base n subs,
+      sagrees_vec (seval (senv_ssum base n subs nosub) e) (List.length subs) (fun _ => NaN)
+  | None => True
+  end).
+Proof. exact (conj gen_stripe_SumSubtotals__subtotal_value (conj gen_stripe_SumSubtotals__subtotal_values (conj gen_stripe_SumSubtotals_subtotal_values (conj gen_stripe_NanSubtotals__subtotal_values (gen_stripe_NanSubtotals_subtotal_values))))). Qed.
+Print Assumptions C04_gen_stripe_SumSubtotals.
+
+(* stripe PositiveTermSubtotals / NegativeTermSubtotals = [vsum_idx] of the addends / subtrahends = [vstrat_std .. 1 / 2] *)
+Theorem C04_gen_stripe_TermSubtotals :
+  (match ssrc_PositiveTermSubtotals__subtotal_value with
+  | Some e => forall base n subs s,
+      sub_in n s ->
+      sagrees_scal (seval (senv_ssum base n subs s) e) (vsum_idx base (s_add s))
+  | None => True
+  end) /\
+  (match ssrc_PositiveTermSubtotals__subtotal_values with
+  | Some e => forall base n subs,
+      subs_in n subs ->
+      sagrees_vec (seval (senv_ssum base n subs nosub) e) (List.length subs) (fun k => vsum_idx base (s_add (nth k subs nosub)))
+  | None => True
+  end) /\
+  (match ssrc_PositiveTermSubtotals_subtotal_values with
+  | Some e => forall base n subs,
+      subs_in n subs ->
+      sagrees_vec (seval (senv_ssum base n subs nosub) e) (List.length subs) (vstrat_std subs 1 (vnth base))
+  | None => True
+  end) /\
+  (match ssrc_NegativeTermSubtotals__subtotal_value with
+  | Some e => forall base n subs s,
+      sub_in n s ->
+      sagrees_scal (seval (senv_ssum base n subs s) e) (vsum_idx base (s_sub s))
+  | None => True
+  end) /\
+  (match ssrc_NegativeTermSubtotals__subtotal_values with
+  | Some e => forall base n subs,
+      subs_in n subs ->
+      sagrees_vec (seval (senv_ssum base n subs nosub) e) (List.length subs) (fun k => vsum_idx base (s_sub (nth k subs nosub)))
+  | None => True
+  end) /\
+  (match ssrc_NegativeTermSubtotals_subtotal_values with
+  | Some e => forall base n subs,
+      subs_in n subs ->
+      sagrees_vec (seval (senv_ssum base n subs nosub) e) (List.length subs) (vstrat_std subs 2 (vnth base))
+  | None => True
+  end).
+Proof. exact (conj gen_stripe_PositiveTermSubtotals__subtotal_value (conj gen_stripe_PositiveTermSubtotals__subtotal_values (conj gen_stripe_PositiveTermSubtotals_subtotal_values (conj gen_stripe_NegativeTermSubtotals__subtotal_value (conj gen_stripe_NegativeTermSubtotals__subtotal_values (gen_stripe_NegativeTermSubtotals_subtotal_values)))))). Qed.
+Print Assumptions C04_gen_stripe_TermSubtotals.
+
+(* stripe WaveDiffSubtotals = [strand_wave_value] = [vwave_std] *)
+Theorem C04_gen_stripe_WaveDiffSubtotals :
+  (match ssrc_WaveDiffSubtotals__multiple_subtrahends_or_addends with
+  | Some e => forall bases counts n dflts subs rd s dflt,
+      keval (senv_swave bases counts n dflts subs rd s dflt) e = multiple_terms s
+  | None => True
+  end) /\
+  (match ssrc_WaveDiffSubtotals__subtotal_value with
+  | Some e => forall bases counts n dflts subs rd s d,
+      sub_in n s ->
+      sagrees_scal (seval (senv_swave bases counts n dflts subs rd s (SVS d)) e) (strand_wave_value counts bases true s d)
+  | None => True
+  end) /\
+  (match ssrc_WaveDiffSubtotals__subtotal_values with
+  | Some e => forall bases counts n subs rd D,
+      subs_in n subs ->
+      sagrees_vec (seval (senv_swave bases counts n (SVV (ARange (List.length subs)) D) subs rd nosub SVErr) e) (List.length subs)
+        (fun k => strand_wave_value counts bases rd (nth k subs nosub) (D k))
+  | None => True
+  end) /\
+  (match ssrc_WaveDiffSubtotals_subtotal_values with
+  | Some e => forall cubel n subs rd bc ba cc ca D,
+      subs_in n subs ->
+      sagrees_vec (seval (senv_swave (cubel bc ba) (cubel cc ca) n (SVV (ARange (List.length subs)) D) subs rd nosub SVErr) e) (List.length subs)
+        (vwave_std cubel subs rd bc ba cc ca D)
+  | None => True
+  end).
+Proof. exact (conj gen_stripe_WaveDiffSubtotals__multiple_subtrahends_or_addends (conj gen_stripe_WaveDiffSubtotals__subtotal_value (conj gen_stripe_WaveDiffSubtotals__subtotal_values (gen_stripe_WaveDiffSubtotals_subtotal_values)))). Qed.
+Print Assumptions C04_gen_stripe_WaveDiffSubtotals.
+
+(* non-vacuity: base [[1 2 3] [4 5 6]], one column subtotal (0 + 2) - 1: the translated
+   SumSubtotals.blocks[0][1] evaluates to the column [2; 5] *)
+Example C04_gen_sub_example :
+  match src_SumSubtotals_blocks_01 with
+  | Some e =>
+      match seval (senv_sum [[Fin 1%Q; Fin 2%Q; Fin 3%Q]; [Fin 4%Q; Fin 5%Q; Fin 6%Q]] 2 3 false false
+                            [] [mkSub [0; 2] [1]] nosub nosub) e with
+      | SVM (ARange 2) (ARange 1) f => f 0 0 =x= Fin 2%Q /\ f 1 0 =x= Fin 5%Q
+      | _ => False
+      end
+  | None => True
+  end.
+Proof. vm_compute. first [exact I | split; reflexivity]. Qed.
+
+End GenAgreeSubtotals_C04.
